@@ -804,6 +804,7 @@ func (r *PipelineRunner) SaveToStore() {
 			Tasks:     tasks,
 			Variables: job.Variables,
 			User:      job.User,
+			LastError: helper.ErrToStrPtr(job.LastError),
 		})
 	}
 	r.mx.Unlock()
@@ -1083,6 +1084,7 @@ func buildJobFromPersistedJob(pJob store.PersistedJob) *PipelineJob {
 		End:       pJob.End,
 		Variables: pJob.Variables,
 		User:      pJob.User,
+		LastError: helper.StrPtrToErr(pJob.LastError),
 	}
 
 	tasks := make(jobTasks, len(pJob.Tasks))
